@@ -34,7 +34,7 @@ func init() {
 			"(R02.3) every generated name is vetted by isReserved, which only answers false after consulting the reserved set (a copy of all js.Keywords ⊇ ECMAScript reserved words) and every undeclared variable of the scope; " +
 			"(R02.4) only renameScope writes Var.Data, only it calls getName, it starts with the !rename early return, and the program scope is never renamed; labels/property/import-export names are never stored to; " +
 			"(R02.5) hoisted names are registered as undeclared in every intermediate scope; (R02.6) the name alphabets are valid, duplicate-free and of the declared length. " +
-			"Not covered: the dependency's scope analysis, getName's arithmetic, shorthand re-expansion.",
+			"(R02.7) statement lists are optimized before their scope is renamed; (R02.8) the rename switch is restored on all paths. Not covered: the dependency's scope analysis, getName's arithmetic, shorthand re-expansion.",
 		Run: runC02,
 	})
 	mutant(&Mutant{Name: "c02-try-body-not-renamed", Property: "C02", File: "js/js.go",
